@@ -168,9 +168,9 @@ def overlaps_taint(rep, idx):
             okuse += 1                                  # a read-only view of the configured limit: it decides nothing
         elif f.name in ("__repr__", "__str__") or any(isinstance(a_, (ast.JoinedStr, ast.Raise)) for a_ in _anc(parents, n)):
             okuse += 1                                  # shown in a message
-        elif isinstance(p, ast.Compare) and all(isinstance(c_, ast.Constant) and c_.value is None for c_ in p.comparators) and \
-                any(isinstance(a_, ast.If) and any(isinstance(s_, ast.Raise) for s_ in a_.body) for a_ in _anc(parents, n)):
-            okuse += 1                                  # validated
+        elif any(isinstance(a_, ast.If) and a_.body and all(isinstance(s_, ast.Raise) for s_ in a_.body) and not a_.orelse and
+                 any(y is n for y in ast.walk(a_.test)) for a_ in _anc(parents, n)):
+            okuse += 1                                  # read by the test of a refusal (`if <test>: raise`): it can only refuse
         else:
             rep.bad("C05.7", f.site, f"shadow_overlaps used at line {n.lineno}", "the sharing limit must only be passed to the shadow registers")
     rep.ok("C05.7", mux.site, "Multiplexer only forwards shadow_overlaps to its shadows", f"{okuse} forwarding use(s)", nontrivial=False)
